@@ -27,7 +27,7 @@ from lib.harness import Check, Outcome
 
 PROPERTY = "C27"
 RULE = (
-    "Hypothesis-generated histories (≤14 ops) on one sticky worker through the real HTTP client: call(script of "
+    "Hypothesis-generated histories (≤18 ops) on one sticky worker through the real HTTP client: call(script of "
     "1–4 actions from {open, open-caught, close, read, noop, raise} executed inside ONE request; via plain "
     "connection or via one of ≤3 with_session_token() views), drain(), enter view (fresh or with a detached "
     "token), detach-and-leave, exit; plus the exhaustive enumeration of every script of length ≤3 over {o,O,c,r,x} × "
@@ -120,18 +120,47 @@ def model_request(script: list[str], accept: bool, draining: bool, cur: int | No
 
 # --------------------------------------------------------------------------- strategies
 
-scripts = st.one_of(
-    st.lists(st.sampled_from(ACTIONS), min_size=1, max_size=4),
-    st.sampled_from([["c", "o"], ["o", "c"], ["c", "O"], ["o"], ["o"], ["r"], ["c"], ["o", "x"], ["c", "o", "r"], ["r", "c", "o"], ["o", "c", "o"]]),
+def _clean(sc: list[str]) -> list[str]:
+    """Nothing runs after a raise: cut the script after the first 'x'."""
+    return sc[: sc.index("x") + 1] if "x" in sc else sc
+
+
+_free_scripts = st.lists(st.sampled_from(ACTIONS), min_size=1, max_size=4).map(_clean)
+_canned = st.sampled_from([
+    ["o"], ["o"], ["o"], ["o"], ["r"], ["r"], ["c"], ["c", "o"], ["o", "c"], ["c", "O"], ["o", "x"], ["c", "o", "r"],
+    ["r", "c", "o"], ["o", "c", "o"], ["r", "c"], ["O", "r"], ["c", "x"], ["c", "o", "x"],
+])
+scripts = st.one_of(_free_scripts, _canned)
+# NB: st.one_of() drops duplicate branches, so weights are expressed through sampled_from() lists.
+_KINDS = ["call"] * 9 + ["enter"] * 2 + ["detach", "exit"]
+
+
+def _mk_op(kind: str, via: Any, script: list[str], stash: int | None, v: int) -> dict[str, Any]:
+    if kind == "call":
+        return {"op": "call", "via": via, "script": script}
+    if kind == "enter":
+        return {"op": "enter", "stash": stash}
+    return {"op": kind, "v": v}
+
+
+ops = st.builds(
+    _mk_op,
+    st.sampled_from(_KINDS),
+    st.sampled_from(["plain", 0, 0, 0, 0, 1, 1, 2]),
+    scripts,
+    st.sampled_from([None, 0, 1, 2]),
+    st.integers(0, 2),
 )
-vias = st.one_of(st.just("plain"), st.integers(0, 2), st.integers(0, 2), st.integers(0, 2))
-op_call = st.builds(lambda via, sc: {"op": "call", "via": via, "script": sc}, vias, scripts)
-op_drain = st.just({"op": "drain"})
-op_enter = st.builds(lambda s: {"op": "enter", "stash": s}, st.one_of(st.none(), st.integers(0, 3)))
-op_detach = st.builds(lambda v: {"op": "detach", "v": v}, st.integers(0, 2))
-op_exit = st.builds(lambda v: {"op": "exit", "v": v}, st.integers(0, 2))
-ops = st.one_of(op_call, op_call, op_call, op_call, op_call, op_call, op_enter, op_detach, op_exit, op_drain)
-histories = st.builds(lambda rest: {"ops": [{"op": "enter", "stash": None}] + rest}, st.lists(ops, min_size=2, max_size=14))
+
+
+def _assemble(rest: list[dict[str, Any]], drain_at: int | None) -> dict[str, Any]:
+    seq = [{"op": "enter", "stash": None}] + rest
+    if drain_at is not None:  # drain is one-way: inject it at most once, anywhere (including before the first call)
+        seq.insert(1 + drain_at % len(seq), {"op": "drain"})
+    return {"ops": seq}
+
+
+histories = st.builds(_assemble, st.lists(ops, min_size=3, max_size=16), st.one_of(st.none(), st.integers(0, 16)))
 
 
 # --------------------------------------------------------------------------- interpreter
@@ -299,7 +328,9 @@ class _Run:
     def do_detach(self, op: dict[str, Any]) -> None:
         if not self.views:
             return
-        v = self.views[op["v"] % len(self.views)]
+        # index into the views ordered "holding a session first": hand-offs of a live session are the interesting ones
+        cands = sorted(self.views, key=lambda x: x.session is None)
+        v = cands[op["v"] % len(cands)]
         tok = v.view.detach()
         v.detached = True
         self.out.label("detach=" + ("token" if tok else "none"))
@@ -422,4 +453,4 @@ def main(chk: Check) -> None:
     chk.extra["scripts_grid_complete"] = bool(complete)
     complete = chk.enumerate("view_sequences", _view_grid(), run_history)
     chk.extra["view_sequences_grid_complete"] = bool(complete)
-    chk.explore("history", histories, run_history, quick=500, thorough=12000)
+    chk.explore("history", histories, run_history, quick=500, thorough=20000)
